@@ -24,6 +24,8 @@ pub struct InitialObj {
     pub content_hash: u64,
     /// non-short slots (LFN fragments, labels) are kept as raw location + bytes
     pub opaque: bool,
+    /// long-name fragments: where the short entry they belong to sits
+    pub owner: Option<(u32, u32)>,
 }
 
 fn hash_chain(snap: &Snap, chain: &[u32]) -> u64 {
@@ -40,12 +42,22 @@ fn hash_chain(snap: &Snap, chain: &[u32]) -> u64 {
 pub fn collect_initial(snap: &Snap, w: &Walk, mvol: usize, out: &mut Vec<InitialObj>) {
     for n in &w.nodes {
         let hash = if n.is_dir || n.chain.len() > 4096 { 0 } else { hash_chain(snap, &n.chain) };
-        out.push(InitialObj { mvol, path: n.path.clone(), is_dir: n.is_dir, slot_blk: n.slot.blk, slot_off: n.slot.off, raw: n.slot.raw, chain: n.chain.clone(), content_hash: hash, opaque: false });
+        out.push(InitialObj { mvol, path: n.path.clone(), is_dir: n.is_dir, slot_blk: n.slot.blk, slot_off: n.slot.off, raw: n.slot.raw, chain: n.chain.clone(), content_hash: hash, opaque: false, owner: None });
     }
     for (_, slots) in &w.dir_slots {
+        let mut pending: Vec<usize> = Vec::new();
         for s in Snap::live_slots(slots) {
-            if s.is_lfn() || s.is_label() {
-                out.push(InitialObj { mvol, path: String::new(), is_dir: false, slot_blk: s.blk, slot_off: s.off, raw: s.raw, chain: vec![], content_hash: 0, opaque: true });
+            if s.is_lfn() {
+                pending.push(out.len());
+                out.push(InitialObj { mvol, path: String::new(), is_dir: false, slot_blk: s.blk, slot_off: s.off, raw: s.raw, chain: vec![], content_hash: 0, opaque: true, owner: None });
+            } else if s.is_label() {
+                pending.clear();
+                out.push(InitialObj { mvol, path: String::new(), is_dir: false, slot_blk: s.blk, slot_off: s.off, raw: s.raw, chain: vec![], content_hash: 0, opaque: true, owner: None });
+            } else {
+                // a short entry: the fragments directly in front of it are its own
+                for i in pending.drain(..) {
+                    out[i].owner = Some((s.blk, s.off));
+                }
             }
         }
     }
@@ -93,6 +105,8 @@ pub struct PreOp {
     pub dir_chain: Vec<u32>,
     /// slot (blk, off) the call owns, when it exists before the call
     pub own_slot: Option<(u32, u32)>,
+    /// delete: the long-name fragments directly in front of the entry (they go with it)
+    pub own_lfn: Vec<(u32, u32)>,
     pub may_write_on_error: bool,
     pub file_off: u32,
     pub file_node: Option<usize>,
@@ -170,6 +184,15 @@ impl PreOp {
                             if let Some(x) = e.vs[vi].walk.nodes.iter().find(|x| x.path == path) {
                                 p.target_chain = x.chain.clone();
                                 p.own_slot = Some((x.slot.blk, x.slot.off));
+                                if let Some(slots) = e.vs[vi].walk.dir_slots.get(&x.parent_dir) {
+                                    if let Some(pos) = slots.iter().position(|s| s.blk == x.slot.blk && s.off == x.slot.off) {
+                                        let mut k = pos;
+                                        while k > 0 && slots[k - 1].is_lfn() && !slots[k - 1].is_deleted() && !slots[k - 1].is_end() {
+                                            k -= 1;
+                                            p.own_lfn.push((slots[k].blk, slots[k].off));
+                                        }
+                                    }
+                                }
                             }
                         }
                     }
@@ -253,6 +276,9 @@ fn write_rules(e: &mut Engine, op: &Op, res: &OpRes, vi: Option<usize>, pre: &Pr
     if let Some((b, o)) = pre.own_slot {
         let len = if matches!(op, Op::Delete { .. }) { 1 } else { 32 };
         own.push((b, o, len));
+    }
+    for (b, o) in &pre.own_lfn {
+        own.push((*b, *o, 1));
     }
     if let (Some(dn), Some(k)) = (pre.dir_node, pre.new_name) {
         // the new entry (create / mkdir): find it in the post-call walk
@@ -642,6 +668,14 @@ pub fn medium_vs_model(e: &mut Engine, vi: usize, with_library: bool) {
             e.violate("C02", "C02.attr", "RO/hidden/system bits", format!("{}: attribute byte {:#04x}, expected bits {:#04x}", path, x.slot.attr(), n.attr & 0x07));
             return;
         }
+        // a file the history created has the 8.3 name it was created under and no other: a long
+        // name in front of its entry is somebody else's (left behind by a deleted file)
+        if !n.pre_existing {
+            if let Some(l) = &x.lfn {
+                e.violate("C02", "C02.missing", "created file appears under a foreign long name", format!("{}: an independent reader shows this file, created as {:?}, under the long name {:?} left behind by a deleted entry", path, fatref::display_name(&n.name), l));
+                return;
+            }
+        }
         let r = &x.slot.raw;
         let rd = |o: usize| u16::from_le_bytes([r[o], r[o + 1]]);
         if n.pre_existing {
@@ -683,7 +717,37 @@ pub fn medium_vs_model(e: &mut Engine, vi: usize, with_library: bool) {
     for o in untouched {
         if o.opaque {
             let b = img.get(o.slot_blk);
-            if b[o.slot_off as usize..o.slot_off as usize + 32] != o.raw {
+            let cur = &b[o.slot_off as usize..o.slot_off as usize + 32];
+            // a long-name fragment goes with its entry: marked deleted (first byte only) once
+            // that entry has been deleted
+            // (once the entry it belonged to has been deleted, the fragment's slot is free and may hold
+            // anything a later call put there)
+            let went_with_its_entry = match o.owner {
+                Some((ob, oo)) => {
+                    let owner_path = e.initial.iter().find(|x| x.mvol == mvol && !x.opaque && x.slot_blk == ob && x.slot_off == oo).map(|x| x.path.clone());
+                    match owner_path {
+                        Some(pth) => {
+                            // is the pre-existing object of that path still there?
+                            let mut cur_n = e.m.vols[mvol].root;
+                            let mut alive = true;
+                            for part in pth.split('/').filter(|p| !p.is_empty()) {
+                                let key = crate::mkfs::name11(part);
+                                match e.m.nodes[cur_n].children.iter().cloned().find(|&c| e.m.nodes[c].name == key && e.m.nodes[c].pre_existing) {
+                                    Some(c) => cur_n = c,
+                                    None => {
+                                        alive = false;
+                                        break;
+                                    }
+                                }
+                            }
+                            !alive
+                        }
+                        None => false,
+                    }
+                }
+                None => false,
+            };
+            if cur != o.raw && !went_with_its_entry {
                 e.violate("C02", "C02.untouched-slot", "long-name or label slot", format!("slot at block {} offset {} (long-name fragment or label) changed", o.slot_blk, o.slot_off));
                 return;
             }
